@@ -408,7 +408,7 @@ def s_formats(c):
 
 
 def s_many(c):
-    for k in range(12):
+    for k in range(12 if c.run.tier == "thorough" else 11):
         if k % 4 == 1:
             c.write(f"gen{k}/added {k}.bin", f"{k}")
         c.create()
@@ -617,6 +617,8 @@ def variants(world, tier, idx):
         named.append(tops[0])  # an ancestor called like an entry of the tree itself
     named = ["named:" + n for n in dict.fromkeys(named)]
     must = [("ascmhl", "abs", "os")] + [(n, "abs", "os") for n in named if script in SCRIPT_ANCESTORS]
+    if script in ("sf", "ignore"):  # option paths (-sf, -ii) relative to a cwd that is not the root
+        must += [("base", "rel", "os"), ("ascmhl", "grand", "rev")]
     locs = LOCS + named
     single = [(l, "abs", "os") for l in locs]
     single += [(("base", "ascmhl")[(idx + j) % 2], s, "os") for j, s in enumerate(SPELLS)]
@@ -635,7 +637,9 @@ def variants(world, tier, idx):
         chosen += [(("base", "uni")[k % 2], ("abs", "rel")[(k // 2) % 2], f"perm{k}") for k in perms]
     else:
         chosen = must + [single[(idx * 5) % len(single)], combo(idx), combo(idx * 5 + 7)]
-        if script in ("many", "latenest") or tree == "siblings":  # where the order of enumeration has most to act on
+        if script == "many":  # long runs: fewer of them, but with the order of enumeration varied
+            chosen = must + [combo(idx), ("ascmhl", "rel", "shuf1")]
+        elif script == "latenest" or tree == "siblings":  # where the order of enumeration has most to act on
             chosen += [("base", "abs", "rev"), ("ascmhl", "rel", "shuf1")]
     if script == "reseal" and tree == "deep":
         chosen.append(("base", "dslash", "os"))  # doubled trailing slash (once made every recorded path look missing on the second run)
@@ -659,7 +663,14 @@ COPIES = [
     ("lnkanc", "abs", "rev"),
     ("long", "dot", "os"),
     ("rootascmhl", "abs", "os"),
+    ("neutral2", "dslash", "os"),
+    ("ascmhl", "dslash", "rev"),
 ]
+
+
+def vid(prefix, v):
+    """stable case id of a variant (no single quote: the id is quoted that way in replay commands)"""
+    return f"{prefix}/{v[0]}/{v[1]}/{v[2]}".replace("'", "%27")
 
 
 def main():
@@ -672,10 +683,10 @@ def main():
         "whole-folder create succeeded (else as at the origin; nested roots and verify -dh: as at the origin), and a further create there must equal the same create on a neutral copy; "
         "non-trivial = distinct (script, tree, placement, formats, location, spelling, order)",
         bound="13 trees (<= 12 entries, depth <= 4, spaces / NFC+NFD / XML-special / U+2028 names, prefix siblings, case pairs, file symlinks, "
-        "empty tree, 1 MiB files in thorough), <= 4 nested histories up to 3 deep, 11 scripts of 1-13 commands (re-seal, same-size same-mtime edit "
-        "-> exit 11, missing file -> exit 12, -i/-ii patterns with slashes / trailing slash / anchoring / negation, -sf, -n, -dr, changing and "
-        "repeated format sets, 12 generations, histories created inside a sealed tree, DST zone), 12 location kinds + ancestors named after the "
-        "patterns in use (ascmhl, .DS_Store, twice ascmhl, *.txt-like, dir pattern, slash pattern, non-ASCII, XML-special, 200+ chars, inside "
+        "empty tree, 1 MiB files in thorough), <= 4 nested histories up to 3 deep, 12 scripts of 1-13 commands (re-seal, same-size same-mtime edit "
+        "-> exit 11, missing file -> exit 10, -i/-ii patterns with slashes / trailing slash / anchoring / negation, -sf, -n, -dr incl. several vanished files of identical content, changing and "
+        "repeated format sets, 11 (quick) / 12 generations, histories created inside a sealed tree, DST zone), 13 location kinds + ancestors named after the "
+        "patterns in use (ascmhl, .DS_Store, twice ascmhl, a second neutral place, *.txt-like, dir pattern, slash pattern, non-ASCII, XML-special, 200+ chars, inside "
         "another history, symlinked ancestor, symlinked root, other root name, root called ascmhl), 12 spellings (absolute, /, //, /., /./, "
         "relative, ./x, x/, ., ./, ../x, parent/x), orders: reverse, rotate, halves, odd-even, seeded shuffles, sorted, k-th permutations "
         "(thorough); quick samples 4-6 variants + 1 copy per world, thorough runs every (for the longer scripts every second) single-dimension variant, 8-16 combinations and 3 copies per world",
@@ -692,7 +703,7 @@ def main():
             vs = variants(world, run.tier, idx)
             nc = 3 if run.tier == "thorough" else 1
             cs = [COPIES[(idx * nc + j) % len(COPIES)] for j in range(nc)]
-            ids = [f"{wid}/ref"] + [f"{wid}/{l}/{s}/{o}" for l, s, o in vs] + [f"{wid}/copy/{l}/{s}/{o}" for l, s, o in cs]
+            ids = [f"{wid}/ref"] + [vid(wid, v) for v in vs] + [vid(wid + "/copy", v) for v in cs]
             if not any(run.want(i) for i in ids):
                 continue
             wtmp = os.path.join(run.tmp, f"w{idx}")
@@ -709,7 +720,7 @@ def main():
                         break
             # ---- variants
             for vi, (loc, how, order) in enumerate(vs):
-                cid = f"{wid}/{loc}/{how}/{order}"
+                cid = vid(wid, (loc, how, order))
                 if not run.want(cid):
                     continue
                 run.case(cid, (wid, loc, how, order), sample={"case": cid})
@@ -720,7 +731,7 @@ def main():
                 ) + f", enumeration order {order}"
                 compare(run, cid, dims_of(loc, how, order), ref_res, got, desc, dict(inp0, location=loc, spelling=how, order=order, arg=c.arg, cwd=c.cwd))
             # ---- copies of the finished reference tree
-            want_copies = [(j, v) for j, v in enumerate(cs) if run.want(f"{wid}/copy/{v[0]}/{v[1]}/{v[2]}")]
+            want_copies = [(j, v) for j, v in enumerate(cs) if run.want(vid(wid + "/copy", v))]
             if want_copies:
                 nroots = W.nested_roots(ref.built)
                 origin = [ref.verify()] + [ref.verify(sub=nr) for nr in nroots]
@@ -728,7 +739,7 @@ def main():
                 cont = _continue(run, clock, os.path.join(wtmp, "cont"), ref, "base", "abs", "os")
                 cont_res = (cont[0], cont[1])
                 for j, (loc, how, order) in want_copies:
-                    cid = f"{wid}/copy/{loc}/{how}/{order}"
+                    cid = vid(wid + "/copy", (loc, how, order))
                     run.case(cid, (wid, "copy", loc, how, order), sample={"case": cid, "sealed": ref.sealed})
                     ex, files, c = _continue(run, clock, os.path.join(wtmp, f"c{j}"), ref, loc, how, order, verify_first=nroots)
                     inp = dict(inp0, location=loc, spelling=how, order=order, arg=c.arg, cwd=c.cwd)
